@@ -170,8 +170,9 @@ fn on_fields(fields: &Fields, has_self: bool, encoding: Encoding) -> syn::Result
     let steps = match encoding {
         Encoding::Map => {
             let mut steps = Vec::new();
-            let len = fields.fields().len();
-            steps.push(quote!(#len.cbor_len(__ctx777)));
+            // The map header counts the entries that are actually written,
+            // i.e. all fields which are neither skipped nor nil.
+            let mut count = quote!(0usize);
             for field in fields.fields() {
                 if field.attrs.skip() {
                     continue
@@ -183,6 +184,7 @@ fn on_fields(fields: &Fields, has_self: bool, encoding: Encoding) -> syn::Result
                 let tag      = on_tag(&field.attrs);
                 if has_self {
                     if field.is_name {
+                        count.extend(quote!(+ if #is_nil(&self.#ident) { 0 } else { 1 }));
                         steps.push(quote! {
                             + if #is_nil(&self.#ident) {
                                 0
@@ -192,6 +194,7 @@ fn on_fields(fields: &Fields, has_self: bool, encoding: Encoding) -> syn::Result
                         })
                     } else {
                         let i = syn::Index::from(field.pos);
+                        count.extend(quote!(+ if #is_nil(&self.#i) { 0 } else { 1 }));
                         steps.push(quote! {
                             + if #is_nil(&self.#i) {
                                 0
@@ -201,6 +204,7 @@ fn on_fields(fields: &Fields, has_self: bool, encoding: Encoding) -> syn::Result
                         })
                     }
                 } else {
+                    count.extend(quote!(+ if #is_nil(&#ident) { 0 } else { 1 }));
                     steps.push(quote! {
                         + if #is_nil(&#ident) {
                             0
@@ -210,6 +214,7 @@ fn on_fields(fields: &Fields, has_self: bool, encoding: Encoding) -> syn::Result
                     })
                 }
             }
+            steps.insert(0, quote!((#count).cbor_len(__ctx777)));
             steps
         }
         Encoding::Array => {
